@@ -32,6 +32,9 @@ CLAIMED = {
  "C18": dict(tech="deterministic simulation: morphism validation / convexity under seeded device schedules; one data corruption per run at the validation boundary; oracle = brute-force definitions",
              text="Exploration by deterministic simulation: valid morphisms built by construction, half of them with exactly one corruption (label, incidence order, map entry, mistyped map), decided by HypergraphArrow::new / is_monomorphism / is_convex_subgraph on control, Vec and perturbed schedules, against brute-force definitions (accept iff all conditions hold, named condition really fails, convexity via reflexive-transitive closure). Evidence, not proof.",
              ref="§5 C18"),
+ "C19": dict(tech="deterministic simulation: Var builder machine (shared Rc<RefCell> state, scheduler-chosen linear extensions of builder steps, handle clone/drop/leak as steps, invariants after every step) + forget on generated lax terms; oracle = direct evaluation, reference interpreter, reference forgetting up to isomorphism",
+             text="Exploration by deterministic simulation: expression DAGs built through var::build under several scheduler-chosen linear extensions with builder invariants checked on the shared state after each step, leaked handles as injected fault (Err + state handed back), and forget/forget_monogamous on arbitrary lax terms with variable hyperedges of any arity and label mix; meaning compared with direct evaluation through strict::eval and a reference interpreter. Evidence, not proof.",
+             ref="§5 C19"),
 }
 NOTE = "Trusted: the harness's plain model, reference operations and isomorphism procedure (cross-checked by selftest), and that SimKind's outcome sets cover the four documented open choices. Sizes are small (<= ~10 nodes)."
 
